@@ -148,7 +148,7 @@ def _ident(rnd, s, allow_escape=True):
     simple = all(ch.isalnum() or ch == '_' for ch in s) and not s[0].isdigit()
     if simple and not (allow_escape and rnd.random() < 0.1):
         return s
-    return '\\' + s + ' '
+    return '\\' + s + rnd.choice([' ', ' ', '\t', '\n', '\r\n'])       # an escaped identifier ends at any white space
 
 
 def _sig(rnd, s):
@@ -165,7 +165,7 @@ def _sig(rnd, s):
 
 def render_verilog(mod, rnd):
     """One of many equivalent renderings; style choices come from rnd (recorded seed)."""
-    ws = lambda: rnd.choice([' ', '  ', '\n  ', '\t', ' /* c */ ', ' // line comment\n  ', ' /** doc **/ ', ' /***/ ', ' /* a * b */ '])
+    ws = lambda: rnd.choice([' ', '  ', '\n  ', '\t', ' /* c */ ', ' // line comment\n  ', ' /** doc **/ ', ' /***/ ', ' /* a * b */ ', ' /**/ '])
     out = []
     if rnd.random() < 0.3:
         out.append('// generated netlist\n/* block\n comment */\n')
@@ -199,7 +199,7 @@ def render_verilog(mod, rnd):
         conns = ['.%s(%s)' % (p, _sig(rnd, s)) for p, s in items]
         if rnd.random() < 0.15:
             conns.append('.%s()' % 'UNUSED' if False else conns.pop()) if False else None
-        attr = rnd.choice(['(* keep *) ', '(* keep **) ', '(* a = "x", b *) ']) if rnd.random() < 0.12 else ''
+        attr = rnd.choice(['(* keep *) ', '(* keep **) ', '(* a = "x", b *) ', '(**) ']) if rnd.random() < 0.12 else ''
         stm.append('%s%s %s (%s);' % (attr, kind, _ident(rnd, iname), (',' + ws()).join(conns)))
         tag[stm[-1]] = iname
     # assigns: bit by bit, or grouped per output bus as a concatenation / sized constant
